@@ -25,6 +25,16 @@
 
 using namespace vh;
 
+// Blocks come from a small static arena (LIFO, one slot per live block) so that the sanitizer
+// build does not pay for a heap allocation + quarantine per argument; oversized requests fall back
+// to the heap.  Guard zones are (re)poisoned on every use.
+namespace arena {
+constexpr std::size_t slot_bytes = 4096;
+constexpr std::size_t slots      = 8;
+alignas(64) inline unsigned char mem[slots][slot_bytes];
+inline std::size_t live = 0;
+} // namespace arena
+
 template <typename Char>
 struct Block {
     static constexpr std::size_t G = 64; // guard bytes on each side
@@ -32,13 +42,20 @@ struct Block {
     std::size_t total  = 0;
     Char* p            = nullptr;
     std::size_t n      = 0;
+    bool heap          = false;
 
     Block(std::vector<i64> const& v, std::vector<i64> const& pad)
     {
         n                = v.size();
         auto const bytes = n * sizeof(Char);
         total            = G + ((bytes + 63) / 64) * 64 + G;
-        raw              = static_cast<unsigned char*>(std::aligned_alloc(64, total));
+        if (total <= arena::slot_bytes && arena::live < arena::slots) {
+            raw = arena::mem[arena::live];
+        } else {
+            raw  = static_cast<unsigned char*>(std::aligned_alloc(64, total));
+            heap = true;
+        }
+        ++arena::live;
         auto* all        = reinterpret_cast<Char*>(raw);
         auto const cells = total / sizeof(Char);
         for (std::size_t i = 0; i < cells; ++i) {
@@ -54,7 +71,8 @@ struct Block {
     ~Block()
     {
         VH_UNPOISON(raw, total);
-        std::free(raw);
+        --arena::live;
+        if (heap) { std::free(raw); }
     }
 };
 
@@ -353,8 +371,16 @@ bool vh::run_case(std::string const& op, Toks& in, Out& impl, Out& ref)
     if (ck == "c") { return Run<char>::run(op, in, impl, ref); }
     if (ck == "w") { return Run<wchar_t>::run(op, in, impl, ref); }
     if (ck == "u") { return Run<char32_t>::run(op, in, impl, ref); }
+#if defined(VH_FEWER_TYPES)
+    // the sanitizer build instantiates three of the five character types (compile time)
+    if (ck == "s" || ck == "b") {
+        impl.tok("skip");
+        return true;
+    }
+#else
     if (ck == "s") { return Run<char16_t>::run(op, in, impl, ref); }
     if (ck == "b") { return Run<char8_t>::run(op, in, impl, ref); }
+#endif
     return false;
 }
 
